@@ -1,18 +1,24 @@
 """C01, part t34 - NDEF write then read round-trips on Type 3, Type 4 and the emulated Type 3 Tag.
 
 L1: theorems of NfcVerif.Props.C01T34 about the executable models
-    Model/T3.lean, Model/T4.lean, Model/T3Emu.lean.
+    Model/T3.lean, Model/T4.lean, Model/T3Emu.lean, and of NfcVerif.Props.C01Emu about the reader model
+    running against the emulation model frame by frame (Model/T3LinkC01.lean): end-to-end round trip for
+    every block list element format.
 L2: real `tag.ndef.octets = data` on simulated tags (harness/sims/t34_sims.py)
     versus the Lean model driver `drv_t34`: outcome, ordered state-changing
     commands, resulting memory, what a fresh activation reports.
+    The real reader over the real emulation versus the link model (driver `drv_c01`): outcome, write
+    frames delivered, block store, fresh read.
 L3: write -> fresh activation -> same octets; capacity really available;
-    oversize data refused with zero commands.
+    oversize data refused with zero commands.  Emulated tag: every Nbr 1..15 and Nbw 1..13, stores below
+    and above 255 blocks, lengths around block / batch multiples and the 255/256 block boundary.
+    Type 4: NDEF files of 65535 / 65536 / 65537.. octets (16 bit offset limit), MLe/MLc extremes.
 """
 from common import Model, hx, exc_name
 from sims import t34_lib as T
 from sims.t34_sims import EmuLink, t3_attr
 
-LEAN_TARGETS = ["NfcVerif.Props.C01T34", "drv_t34"]
+LEAN_TARGETS = ["NfcVerif.Props.C01T34", "drv_t34", "NfcVerif.Props.C01Emu", "drv_c01"]
 HAVE_EMU_MODEL = True
 
 THEOREMS = [
@@ -109,7 +115,7 @@ def run_part(ck):
     # 65536, 65537.. octets, ordinary control TLV with the largest sizes its 2 octet field can announce
     edge = [(6, 65536), (6, 70000), (4, 65535), (6, 65535), (6, 65537), (6, 65540), (4, 65534), (6, 131072)]
     if not ck.thorough:
-        edge = edge[:3] + [rng.choice(edge[3:])]
+        edge = [edge[0], edge[2], rng.choice(edge[1:2] + edge[3:])]
     for tag, mfs in edge:
         ver = 0x30 if tag == 6 or rng.random() < 0.5 else 0x20
         mle, mlc = rng.choice([(255, 255), (256, 255), (255, 254), (256, 253)])
@@ -119,7 +125,7 @@ def run_part(ck):
         ls = T.lengths(rng, lay.cap, 4 if ck.thorough else 2)
         if lay.kind == "t4" and lay.cap > 5000:
             rc = min(lay.mfs, 65536) - lay.nl     # what the 16 bit offset can reach
-            ls = sorted(set([0, rc - 1, rc, rc + 1] + ([5, lay.cap, lay.cap + 1, 66000] if ck.thorough else [])))
+            ls = sorted(set([0, rc, rc + 1] + ([5, rc - 1, lay.cap, lay.cap + 1, 66000] if ck.thorough else [])))
             ck.count("t4: NDEF file of %s 65536 octets" % ("less than" if lay.mfs < 65536 else "exactly" if lay.mfs == 65536 else "more than"))
         for n in ls:
             data = T.rbytes(rng, n, 1) if rng.random() < 0.9 else bytes(n)
@@ -210,6 +216,19 @@ def emu_part(ck, model):
     ids = hx(IDM + PMM + b"\x12\xFC")
     jobs = []
     for nbr, nbw, nmaxb in emu_layouts(rng, ck.thorough):
+        try:
+            emu_layout(ck, nbr, nbw, nmaxb, ids, jobs)
+        except Exception as e:  # noqa
+            ck.fail("t3emu-unexpected-behaviour", "emulated tag (Nbr %d, Nbw %d, Nmaxb %d): the exploration ended with %s"
+                    % (nbr, nbw, nmaxb, T.xname(e)), {"emulated": True, "nbr": nbr, "nbw": nbw, "nmaxb": nmaxb, "exception": repr(e)})
+    T.compare(ck, link_model, jobs, "t3emu-reader-over-emulation-model-vs-nfcpy")
+    if HAVE_EMU_MODEL:
+        emu_tie(ck, model)
+
+
+def emu_layout(ck, nbr, nbw, nmaxb, ids, jobs):
+    rng = ck.rng
+    if True:
         cap = nmaxb * 16
         old = T.rbytes(rng, rng.choice([0, cap, rng.randrange(cap + 1), min(cap, 16 * nbr)]), 1)
         store = bytearray(T.rbytes(rng, 16 * (nmaxb + 1), 1))
@@ -256,9 +275,6 @@ def emu_part(ck, model):
             keep_from = 16 + 16 * ((n + 15) // 16)
             if len(after) != len(store) or after[keep_from:] != bytes(store[keep_from:]):
                 ck.fail("t3emu-store-damaged", "block store changed outside the written blocks", replay)
-    T.compare(ck, link_model, jobs, "t3emu-reader-over-emulation-model-vs-nfcpy")
-    if HAVE_EMU_MODEL:
-        emu_tie(ck, model)
 
 
 def emu_tie(ck, model):
